@@ -12,3 +12,7 @@ pub fn bt_disabled() -> std::backtrace::Backtrace {
 pub fn fmt_stub(_args: core::fmt::Arguments<'_>) -> String {
     String::from("??")
 }
+
+/// `String::push_str` while the generated wrapper builds the *text* of its "unsupported message"
+/// error with `acc + message + ", "` (outside every claim): the string is left unchanged.
+pub fn push_str_stub(_s: &mut String, _o: &str) {}
